@@ -82,6 +82,9 @@ var c04alphabet = []string{
 	`(for [(def i 0) (< i 3) (set i (+ i 1))] (newScope (def y 2) (cond (begin (cond (== i 1) (continue) nil) true) 1 2)))`,
 	`(for [(def i 0) (< i 3) (set i (+ i 1))] (let [x 1] (or false (cond (== i 2) (break) nil) 1)))`,
 	`((fn [a b] a) 7 (map (fn [x] (return)) [1 2]))`,
+	// a self-call inside an argument of the tail self-call (the inner call is not in tail position)
+	`(begin (defn idem [k x] (cond (== k 0) x (idem 0 (idem (- k 1) x)))) (idem 3 7))`,
+	`(begin (defn ack [u w] (cond (== u 0) (+ w 1) (== w 0) (ack (- u 1) 1) (ack (- u 1) (ack u (- w 1))))) (ack 2 2))`,
 	// failing forms after which the host does NOT call Clear (an embedding host need not): what they leave behind must
 	// not make a later successful evaluation end up away from rest
 	`!(for [(def i 0) (< i 1) (set i (+ i 1))] (let))`,
@@ -331,7 +334,7 @@ func init() {
 	engine.Register(&engine.Check{
 		ID:    "C04",
 		Level: "model_checking",
-		Rule: "explicit-state BFS over histories of evaluations on one long-lived interpreter (StandardSetup): alphabet of 62 operations, one per family of the full surface language (core forms, struct/var/func/method/interface, defmac and macro calls, macexpand, range, infix blocks, package, tail recursion, lazy forcing, eval, failing forms, unparsable text, empty input, and evaluations made through the Go API: Apply of a compiled function and of a builtin, LoadString+Run, EvalExpressions); " +
+		Rule: "explicit-state BFS over histories of evaluations on one long-lived interpreter (StandardSetup): alphabet of 64 operations, one per family of the full surface language (core forms, struct/var/func/method/interface, defmac and macro calls, macexpand, range, infix blocks, package, tail recursion, lazy forcing, eval, failing forms, unparsable text, empty input, and evaluations made through the Go API: Apply of a compiled function and of a builtin, LoadString+Run, EvalExpressions); " +
 			"state key = four stack depths + sorted printed user globals; in every state: stacks at rest after a success, empty input gives nil, all forms in one call == one at a time; depth 3 (thorough 4). " +
 			"Plus the C02/C03/C09/C16 program grammars evaluated in batches of 40 on one interpreter with the stacks checked after each success; distinct_nontrivial = distinct (value, state) outcomes",
 		Assumptions: []string{"depths are read through the verif accessor VerifDepths", "after a failed evaluation the interpreter is cleared as the REPL does (what a failure leaves behind is C05)"},
